@@ -94,6 +94,31 @@ def analyse(rep, which):
     return A
 
 
+def honest_customer_config(rep, S, mcfg):
+    """The customer configuration that belongs to a merchant configuration (the customer holds the merchant's public
+    parameters).  Uses the library's own conversion when it exists; otherwise builds it field by field by type:
+    the merchant's public key for the PublicKey field, the merchant's own value for every other field type."""
+    prog = rep.prog
+    tcc = method(prog, MCFG, "to_customer_config")
+    if tcc is not None:
+        rep.fn(tcc)
+        return S.call(tcc, [mcfg])
+    CC = ZA + "::customer::Config"
+    pkm, kpk = method(prog, MCFG, "signing_keypair"), method(prog, KP, "public_key")
+    mf = adt_fields(prog, MCFG)
+    out = []
+    for f in adt_fields(prog, CC):
+        t = f["t"]
+        if t[0] == "adt" and t[1] == PK and pkm is not None and kpk is not None:
+            out.append(S.call(kpk, [S.call(pkm, [mcfg])]))
+            continue
+        same = [i for i, g in enumerate(mf) if g["t"] == t]
+        if len(same) != 1:
+            return None
+        out.append(fld(mcfg, same[0], mf[same[0]]["n"]))
+    return ("struct", CC, 0, tuple(out))
+
+
 def prover(rep, A):
     """Honest prover output and its acceptance by the verifier under the honest correspondence."""
     if hasattr(A, "P"):
@@ -102,13 +127,11 @@ def prover(rep, A):
     S = Session(prog)
     A.SP = S
     new = A.new
-    tcc = method(prog, MCFG, "to_customer_config")
-    if not rep.anchor("merchant::Config::to_customer_config", tcc):
+    mcfg = ("mcfg",)
+    ccfg = honest_customer_config(rep, S, mcfg)
+    if not rep.anchor("customer configuration of a merchant configuration", ccfg):
         A.P = None
         return A
-    rep.fn(tcc)
-    mcfg = ("mcfg",)
-    ccfg = S.call(tcc, [mcfg])
     A.mcfg, A.ccfg = mcfg, ccfg
     rng = ("refv", ("rng",))
     ctx = ("ctx",)
